@@ -186,6 +186,8 @@ struct Obs {
     context: String,
     ok: bool,
     other_err: bool,
+    /// a lexer error that carries no position (NotEnoughData): the parser failed and says nothing of where
+    unlocated: bool,
 }
 
 fn observe(c: &Case, dir: &std::path::Path, idx: usize) -> Result<(Obs, Option<String>), String> {
@@ -209,7 +211,7 @@ fn observe(c: &Case, dir: &std::path::Path, idx: usize) -> Result<(Obs, Option<S
     };
     let res = res.map_err(|p| format!("panic: {p}"))?;
     match res {
-        Ok(_) => Ok((Obs { report: None, display: String::new(), context: String::new(), ok: true, other_err: false }, path)),
+        Ok(_) => Ok((Obs { report: None, display: String::new(), context: String::new(), ok: true, other_err: false, unlocated: false }, path)),
         Err(e) => {
             let text = c.text.clone();
             let (display, context) = crate::comp::guarded(|| (e.to_string(), e.contextualize(&text))).map_err(|p| format!("panic while rendering: {p}"))?;
@@ -218,7 +220,8 @@ fn observe(c: &Case, dir: &std::path::Path, idx: usize) -> Result<(Obs, Option<S
                 _ => None,
             };
             let other_err = report.is_none();
-            Ok((Obs { report, display, context, ok: false, other_err }, path))
+            let unlocated = matches!(&e, CompilerError::Lexer(LexerError { kind: LexerErrorType::NotEnoughData(_) }));
+            Ok((Obs { report, display, context, ok: false, other_err, unlocated }, path))
         }
     }
 }
@@ -235,6 +238,9 @@ fn judge(c: &Case, o: &Obs, path: &Option<String>) -> Option<(&'static str, Stri
             return Some(("must-fail", "input with a character that starts no ASN.1 token compiled Ok".into()));
         }
         return None;
+    }
+    if o.unlocated {
+        return Some(("position", format!("parsing failed without any position: {}", o.display.chars().take(120).collect::<String>())));
     }
     let Some(r) = &o.report else { return None };
     let len = c.text.len();
@@ -324,7 +330,7 @@ pub fn run(tier: Tier, seed: u64, replay: Option<String>) -> i32 {
     let mut ctx = Ctx::new("C17", tier, seed);
     ctx.rule = "generator outputs (1..3 modules, LF and CRLF, with and without comments) with one token-level corruption of one assignment or header: deletion, \
                 replacement or insertion of a token, and the bounding subclass (a character that starts no ASN.1 token inserted at a token boundary or substituted \
-                for a token); given as a literal or as a file; oracle (when the result is a lexer matching error): offset inside the input on a char boundary, line = \
+                for a token); given as a literal or as a file; oracle (when the result is a lexer error; one that carries no position at all is a failure): offset inside the input on a char boundary, line = \
                 1 + line breaks before the offset, first token of the malformed definition <= offset <= illegal character, Display / contextualize header / marked \
                 line equal the report's line, src_file = path for files and None for literals; bounding corruptions must fail; non-trivial = corruption not in the \
                 first unit of the input; distinct by input text"
